@@ -165,7 +165,8 @@ def inventory(game, cfg: Dict) -> List[str]:
             dfix = sw.config.fixing_duration if ("service_fix_duration" in dflt and name in decl_svc and "fixing_duration" not in dopts) else None
             drst = getattr(sw, "restart_duration", "<none>") if ("service_restart_duration" in dflt and name in decl_svc) else None
             out.append(f"sw {h} {name} {kind} n={live.get(name, 0)} st={sw.operating_state.name} h={sw.health_state_actual.name} "
-                       f"dfl={'-' if dfix is None else _num(dfix)}/{'-' if drst is None else _num(drst)} {built_opts(sw, dopts)}".rstrip())
+                       f"dfl={'-' if dfix is None else _num(dfix)}/{'-' if drst is None else _num(drst)} eff={effective(sw)} "
+                       f"{built_opts(sw, dopts)}".rstrip())
         for name in live:
             if name not in sm.software:
                 out.append(f"sw {h} {name} orphan n={live[name]}")
@@ -275,6 +276,26 @@ def live_readings(sw, k: str) -> Dict[str, str]:
     except Exception as e:  # a reader that raises is a difference, not a crash of the rig
         out["raises"] = type(e).__name__
     return out
+
+
+# options that have a second source outside the software entry (model: `outerSources`): software name -> {option: live reader}.
+# The value the running software ends up with is printed for EVERY instance, declared option or not, so that all four
+# combinations (neither / only the outer source / only the entry / both) show.
+OUTER_SOURCES: Dict[str, Dict[str, Any]] = {"dns-client": {"dns_server": _attr("dns_server")}}
+
+
+def effective(sw) -> str:
+    rd = OUTER_SOURCES.get(sw.name)
+    if not rd:
+        return "-"
+    parts = []
+    for k, f in rd.items():
+        try:
+            v = f(sw)
+            parts.append(f"{k}:{'-' if v is None else tok(v)}")
+        except Exception as e:
+            parts.append(f"{k}:raises-{type(e).__name__}")
+    return ",".join(parts)
 
 
 def built_opts(sw, declared_options: Dict) -> str:
